@@ -115,6 +115,13 @@ func (o *oC16) OnEvent(k *Kernel, ev *Event) {
 	switch ev.Point {
 	case "rl.bucket.create":
 		o.buckets++
+		if len(ev.raw) >= 3 {
+			n, _ := ev.raw[1].(int)
+			bound, _ := ev.raw[2].(int)
+			if bound > 0 && n > bound {
+				k.Violate("C16", "bounded", "limiter-table-over-bound", fmt.Sprintf("the per-host limiter table holds %d buckets after adding %v, configured bound %d", n, ev.raw[0], bound))
+			}
+		}
 	case "rl.bucket.evict", "rl.bucket.cleanup":
 		o.buckets--
 	}
